@@ -292,7 +292,7 @@ def invMod2kT (n : Nat) : Trace := (invMod2k n [] zero).tr
 def invMod2kVartimeT (n k : Nat) : Trace := (invMod2kVartime n [] k).tr
 @[simp] theorem invMod2kVartime_tr (n : Nat) (a : List Sec) (k : Nat) : (invMod2kVartime n a k).tr = invMod2kVartimeT n k := by
   unfold invMod2kVartimeT invMod2kVartime; leak_simp
-  apply forN_tr_congr; intro i s s'; leak_simp; simp only [invStepB_tr, shlVartime_tr, ubitor_tr]
+  apply forN_tr_congr; intro i s s'; leak_simp; simp only [invStepB_tr, shlVartime_tr, uselect_tr, ubitor_tr]
 
 /-! ### Montgomery multiplication, exponentiation -/
 def redcLowerLoopT (n i : Nat) : Trace := (redcLowerLoop n i zero [] [] zero).tr
